@@ -62,7 +62,7 @@ impl Method for EMA {
 		match length {
 			0 => Err(Error::WrongMethodParameters),
 			length => {
-				let alpha = 2. / ((length + 1) as ValueType);
+				let alpha = 2. / (length as ValueType + 1.);
 				Ok(Self { alpha, value })
 			}
 		}
